@@ -28,3 +28,21 @@ func lemmaKeyRoundTrip(k []byte, ts uint64) ([]byte, uint64) {
 func lemmaKeyOrder(k1 []byte, t1 uint64, k2 []byte, t2 uint64) int {
 	return CompareKeys(KeyWithTs(k1, t1), KeyWithTs(k2, t2))
 }
+
+// lemmaValueStructRoundTrip: C20, "the value-struct encoding round-trips for all field values":
+// Encode writes exactly EncodedSize() bytes and Decode of those bytes returns the same Meta,
+// UserMeta, ExpiresAt and Value bytes.
+//
+//@ func lemmaValueStructRoundTrip
+//@   props C20 C06
+//@   requires v != nil && len(v.Value) < 1<<31
+//@   ensures[meta] result.Meta == old(v.Meta) && result.UserMeta == old(v.UserMeta)
+//@   ensures[expiry] result.ExpiresAt == old(v.ExpiresAt)
+//@   ensures[value] bytes(result.Value) == bytes(old(v.Value))
+func lemmaValueStructRoundTrip(v *ValueStruct) ValueStruct {
+	buf := make([]byte, v.EncodedSize())
+	n := v.Encode(buf)
+	var out ValueStruct
+	out.Decode(buf[:n])
+	return out
+}
